@@ -229,6 +229,10 @@ def gen_spatial(rng, n, tier):
             base = rng.choice([4107542390, 951782390, 4107542400 + 86400 * 40])
         T = sorted(rng.sample(range(base, base + 3 * k + 5), k))
         out.append({'X': X, 'Y': Y, 'Z': Z, 'T': T, 'ms': [0] * k, 'ds': rng.choice([0.25, 0.5, 1, 2, 4, 5, 2.5, 10, 13]), 'zone': rng.choice([0, 0, 0, 2, -3]), 'byear': byear})
+        # a track with a past: its curvilinear abscissas were computed (feature abs_curv) when its geometry was another one - twice as large and edited in place since,
+        # or with one more fix that has been removed since; the resampling is that of the polyline the track has NOW
+        if rng.random() < 0.25:
+            out[-1]['stale'] = rng.choice(['edit', 'remove', 'fresh'])
     return out
 
 
@@ -241,7 +245,23 @@ def abscissas(case):
 
 
 def run_spatial(case):
-    tr = mktrack(case['T'], case['ms'], case['X'], case['Y'], case['Z'])
+    from tracklib.algo.cinematics import computeAbsCurv
+    st = case.get('stale')
+    if st == 'edit':
+        tr = mktrack(case['T'], case['ms'], [2 * v + 1 for v in case['X']], [2 * v for v in case['Y']], case['Z'])
+        computeAbsCurv(tr)
+        for i in range(tr.size()):
+            tr.getObs(i).position.setX(case['X'][i]); tr.getObs(i).position.setY(case['Y'][i])
+    elif st == 'remove':
+        j = len(case['X']) // 2
+        ins = lambda l, v: l[:j] + [v] + l[j:]
+        tr = mktrack(ins(case['T'], case['T'][j]), ins(case['ms'], 0), ins(case['X'], case['X'][j] + 7.0), ins(case['Y'], case['Y'][j] - 24.0), ins(case['Z'], 1.0))
+        computeAbsCurv(tr)
+        tr.removeObs(j)
+    else:
+        tr = mktrack(case['T'], case['ms'], case['X'], case['Y'], case['Z'])
+        if st == 'fresh':
+            computeAbsCurv(tr)
     tr.createAnalyticalFeature('a', 1.0)
     if case.get('zone'):
         tr.setTimeZone(case['zone'])              # a label on the timestamps: the instants, hence the interpolated ones, are the same wall-clock fields
